@@ -10,7 +10,9 @@
 EXTENDS BackendServer, Json, Sequences, FiniteSets
 
 CONSTANTS ApfMode,     \* "quick" | "thorough" : which acknowledged-feature sets are explored
-          MaxDepth     \* bound on history length (beyond transition coverage)
+          MaxDepth,    \* bound on history length (beyond transition coverage)
+          NegFail      \* may the handler of a negotiation request (SET_FEATURES / SET_PROTOCOL_FEATURES) fail?  What the frontend
+                       \* acknowledged is what it sent, whatever the device says to it (statement of C04: "REPLY_ACK acknowledged")
 
 VARIABLES s, devPF, hist, wire, needs
 
@@ -19,10 +21,11 @@ ApfChoices ==
     THEN {{}} \cup {{b} : b \in GatingBits} \cup {GatingBits} \cup {GatingBits \ {b} : b \in GatingBits}
     ELSE {S \in SUBSET GatingBits : Cardinality(S) <= 2 \/ Cardinality(S) >= Cardinality(GatingBits) - 2}
 
+NegOutcomes == IF NegFail THEN {"ok", "fail"} ELSE {"ok"}
 NegotiationLetters ==
     {[c |-> GET_FEATURES, nr |-> FALSE, h |-> "ok", v |-> {}]}
-    \cup {[c |-> SET_FEATURES, nr |-> nr, h |-> "ok", v |-> v] : nr \in BOOLEAN, v \in {{}, {VF_PROTOCOL_FEATURES}}}
-    \cup {[c |-> SET_PROTOCOL_FEATURES, nr |-> nr, h |-> "ok", v |-> v] : nr \in BOOLEAN, v \in ApfChoices}
+    \cup {[c |-> SET_FEATURES, nr |-> nr, h |-> h, v |-> v] : nr \in BOOLEAN, v \in {{}, {VF_PROTOCOL_FEATURES}}, h \in NegOutcomes}
+    \cup {[c |-> SET_PROTOCOL_FEATURES, nr |-> nr, h |-> h, v |-> v] : nr \in BOOLEAN, v \in ApfChoices, h \in NegOutcomes}
 
 ProbeLetters ==
     {[c |-> c, nr |-> nr, h |-> h, v |-> {}] :
